@@ -213,6 +213,8 @@ def doOp (ctx : Ctx) (line : String) : Ctx × String × String :=
         | none => "-"
     (ctx, b (isCheck ctx.cur .white) ++ b (isCheck ctx.cur .black), S)
   | "eval" => (ctx, toString (getEvaluation ctx.cur), "-")
+  | "evalflip" =>
+    (ctx, s!"{getEvaluation ctx.cur} {getEvaluation { ctx.cur with toMove := ctx.cur.toMove.opp }}", "-")
   | "mk" =>
     (match makeMove H ctx.cur rest.toList with
      | some p =>
